@@ -215,7 +215,7 @@ def statKey (op : List String) (obs : List String) : List String :=
   | "detect" :: n :: _ =>
     let ss := sections obs
     let c := sect ss "C" ≠ ["-1"]; let t := sect ss "T" ≠ ["-1"]
-    [s!"detect_n{if nat! n > 8 then "9-12" else if nat! n > 3 then "4-8" else if nat! n > 0 then "1-3" else "0"}",
+    [s!"detect_n{if nat! n > 19 then "20-40" else if nat! n > 12 then "13-19" else if nat! n > 8 then "9-12" else if nat! n > 3 then "4-8" else if nat! n > 0 then "1-3" else "0"}",
      if c ∧ t then "detect_linked" else if c then "detect_console_only" else if t then "detect_tty_only" else "detect_neither",
      if (sect ss "I").length < (sect ss "P").length then "detect_some_probe_nil" else "detect_all_probed",
      if (sect ss "A").length < (sect ss "I").length then "detect_some_init_failed" else "detect_no_init_failed"]
